@@ -251,6 +251,8 @@ edit('C01', 'twin', 'getter factory as a named closure', COMPILER, "            
 edit('C04', 'twin', 'persistent visitor variable renamed', 'forml/flow/_suite/assembly.py', "        apply = clean.Stateful()\n        self.apply.accept(apply)\n        return tuple(apply)", "        visitor = clean.Stateful()\n        self.apply.accept(visitor)\n        return tuple(visitor)")
 edit('C03', 'twin', 'compound compose via temporaries', 'forml/flow/_suite/member.py', "        return scope.expand().extend(*self.expand())", "        left = scope.expand()\n        return left.extend(*self.expand())")
 edit('C12', 'twin', 'fold variable renamed', METHOD, "            fold: flow.Trunk = pipeline.expand()\n            fold.train.subscribe(features_splitter[2 * fid])\n            fold.label.subscribe(labels_splitter[2 * fid])\n            fold.apply.subscribe(features_splitter[2 * fid + 1])\n            outcomes.append(_api.Outcome(labels_splitter[2 * fid + 1].publisher, fold.apply.publisher))", "            branch: flow.Trunk = pipeline.expand()\n            branch.train.subscribe(features_splitter[2 * fid])\n            branch.label.subscribe(labels_splitter[2 * fid])\n            branch.apply.subscribe(features_splitter[2 * fid + 1])\n            outcomes.append(_api.Outcome(labels_splitter[2 * fid + 1].publisher, branch.apply.publisher))")
+edit('C09', 'twin', 'resolve_source by explicit membership test', 'forml/io/dsl/parser.py', "        try:\n            return self._sources[source]\n        except KeyError as err:\n            raise dsl.UnprovisionedError(f'Unknown mapping for source {source}') from err", "        if source not in self._sources:\n            raise dsl.UnprovisionedError(f'Unknown mapping for source {source}')\n        return self._sources[source]")
+edit('C09', 'break', 'resolve_source decides by the handle value', 'forml/io/dsl/parser.py', "        try:\n            return self._sources[source]\n        except KeyError as err:\n            raise dsl.UnprovisionedError(f'Unknown mapping for source {source}') from err", "        target = self._sources.get(source)\n        if not target:\n            raise dsl.UnprovisionedError(f'Unknown mapping for source {source}')\n        return target")
 edit('C09', 'twin', 'matcher variable renamed', INPUT, "            matcher = self.Matcher(feed.sources)\n            source.accept(matcher)\n            if matcher:\n                return feed", "            probe = self.Matcher(feed.sources)\n            source.accept(probe)\n            if probe:\n                return feed")
 edit('C10', 'twin', 'where terms via named operators', COMP, "                if lower is not None:\n                    terms.append(self.once.value.lower(self.column, self.column.kind.cast(lower)))", "                if lower is not None:\n                    bound = self.column.kind.cast(lower)\n                    terms.append(self.once.value.lower(self.column, bound))")
 edit('C14', 'twin', 'select grouping via a local', PARSER, "            self.context.tables.select(*source.grouping)\n", "            tables = self.context.tables\n            tables.select(*source.grouping)\n")
